@@ -1347,43 +1347,56 @@ func (p *Prog) eagerMigrationByOption() []Ob {
 		return ""
 	}
 	n := 0
-	for _, b := range open.Blocks {
-		for _, ins := range b.Instrs {
-			c, ok := ins.(*ssa.Call)
-			if !ok || c.Common().StaticCallee() != mig {
-				continue
-			}
-			n++
-			ob := Ob{Rule: "R19", Inst: fmt.Sprintf("d:eager-migration#%d", n), Props: []string{"C17"}, Pos: p.at(c), Func: funcLabel(open), Nontrivial: true}
-			var bad []string
-			for d := b; d != nil; d = d.Idom() {
-				id := d.Idom()
-				if id == nil {
-					break
-				}
-				iff, ok := terminator(id).(*ssa.If)
-				if !ok {
-					continue
-				}
-				// only branches one of whose edges really decides whether the call runs
-				if !edgeDominates(id, 0, b) && !edgeDominates(id, 1, b) {
-					continue
-				}
-				// error checks and range conditions are not decisions about the segment
-				cond := iff.Cond
-				if bo, ok := cond.(*ssa.BinOp); ok && (isNilConst(bo.X) || isNilConst(bo.Y)) {
-					continue
-				}
-				if s := dependsOnCall(cond, 0); s != "" {
-					bad = append(bad, fmt.Sprintf("%s: whether the segment is migrated depends on the result of %s", p.at(iff), s))
+	// the call may sit in Open or in a small helper Open hands the segments to
+	fns := []*ssa.Function{open}
+	for i := 0; i < len(fns) && i < 4; i++ {
+		for _, b := range fns[i].Blocks {
+			for _, ins := range b.Instrs {
+				if c, ok := ins.(*ssa.Call); ok && c.Common().StaticCallee() != mig && p.callLeadsTo(c, mig) {
+					fns = append(fns, c.Common().StaticCallee())
 				}
 			}
-			if len(bad) > 0 {
-				ob.Status, ob.Msg, ob.Path = Violated, "the eager migration at Open is conditional on something computed from a call, not only on the options: segments that need migrating can be passed over", uniqStrings(bad)
-			} else {
-				ob.Status, ob.Msg = Discharged, "only option tests, error checks and the loop over the segments stand between Open's entry and Segment.Migrate"
+		}
+	}
+	for _, host := range fns {
+		for _, b := range host.Blocks {
+			for _, ins := range b.Instrs {
+				c, ok := ins.(*ssa.Call)
+				if !ok || !p.callLeadsTo(c, mig) {
+					continue
+				}
+				n++
+				ob := Ob{Rule: "R19", Inst: fmt.Sprintf("d:eager-migration#%d", n), Props: []string{"C17"}, Pos: p.at(c), Func: funcLabel(host), Nontrivial: true}
+				var bad []string
+				for d := b; d != nil; d = d.Idom() {
+					id := d.Idom()
+					if id == nil {
+						break
+					}
+					iff, ok := terminator(id).(*ssa.If)
+					if !ok {
+						continue
+					}
+					// only branches one of whose edges really decides whether the call runs
+					if !edgeDominates(id, 0, b) && !edgeDominates(id, 1, b) {
+						continue
+					}
+					// error checks and range conditions are not decisions about the segment
+					cond := iff.Cond
+					if bo, ok := cond.(*ssa.BinOp); ok && (isNilConst(bo.X) || isNilConst(bo.Y)) {
+						continue
+					}
+					if s := dependsOnCall(cond, 0); s != "" {
+						bad = append(bad, fmt.Sprintf("%s: whether the segment is migrated depends on the result of %s", p.at(iff), s))
+					}
+				}
+				if len(bad) > 0 {
+					ob.Status, ob.Msg, ob.Path = Violated, "the eager migration at Open is conditional on something computed from a call, not only on the options: segments that need migrating can be passed over", uniqStrings(bad)
+				} else {
+					ob.Status, ob.Msg = Discharged, "only option tests, error checks and the loop over the segments stand between Open's entry and Segment.Migrate"
+				}
+				obs = append(obs, ob)
 			}
-			obs = append(obs, ob)
 		}
 	}
 	if n == 0 {
@@ -2625,10 +2638,10 @@ func (p *Prog) recoverBeforeMigrate() []Ob {
 	for _, b := range open.Blocks {
 		for _, ins := range b.Instrs {
 			if c, ok := ins.(*ssa.Call); ok {
-				switch c.Common().StaticCallee() {
-				case rec:
+				switch {
+				case p.callLeadsTo(c, rec):
 					recBlocks = append(recBlocks, b)
-				case mig:
+				case p.callLeadsTo(c, mig):
 					migBlocks = append(migBlocks, b)
 					migCall = c
 				}
@@ -4153,7 +4166,8 @@ func (p *Prog) ownBackingArray() []Ob {
 // their start segment with the same function.
 func (p *Prog) cursorSiblings() []Ob {
 	r := p.R
-	pick := func(m *ssa.Function) *ssa.Function {
+	var pickD func(m *ssa.Function, depth int) *ssa.Function
+	pickD = func(m *ssa.Function, depth int) *ssa.Function {
 		if m == nil {
 			return nil
 		}
@@ -4163,19 +4177,27 @@ func (p *Prog) cursorSiblings() []Ob {
 				if !ok || len(c.Call.Args) == 0 {
 					continue
 				}
+				g := c.Common().StaticCallee()
+				if g == nil {
+					continue
+				}
 				if f, _ := loadedField(canon(c.Call.Args[0])); f == r.ImplReaders {
-					g := c.Common().StaticCallee()
-					if g != nil {
-						if o := g.Origin(); o != nil {
-							g = o
-						}
-						return g
+					if o := g.Origin(); o != nil {
+						g = o
+					}
+					return g
+				}
+				// a small method of the log that does the picking for both
+				if depth < 2 && recvNamed(g) == r.Impl && g.Blocks != nil {
+					if h := pickD(g, depth+1); h != nil {
+						return h
 					}
 				}
 			}
 		}
 		return nil
 	}
+	pick := func(m *ssa.Function) *ssa.Function { return pickD(m, 0) }
 	a, b := pick(r.ImplMethods["Consume"]), pick(r.ImplMethods["ConsumeByKey"])
 	ob := Ob{Rule: "R36", Inst: "cursor-siblings", Props: []string{"C09", "C03"}, Pos: "-", Nontrivial: true}
 	if m := r.ImplMethods["ConsumeByKey"]; m != nil {
@@ -4211,10 +4233,55 @@ func (p *Prog) sizeInConfiguredVersion() []Ob {
 				continue
 			}
 			n++
-			name, _ := p.optionField(c.Call.Args[1])
-			if name == "" {
-				bad = append(bad, fmt.Sprintf("%s: the version is %s, not an option of the log", p.at(c), canon(c.Call.Args[1]).String()))
+			if name, _ := p.optionField(c.Call.Args[1]); name != "" {
+				continue
 			}
+			// not a direct option read: it may have gone through locals; what must not be at its
+			// origin is a version named by the code (a package-level version value or a literal)
+			seen := map[ssa.Value]bool{}
+			var origin func(v ssa.Value, d int)
+			origin = func(v ssa.Value, d int) {
+				if v == nil || seen[v] || d > 12 {
+					return
+				}
+				seen[v] = true
+				switch x := v.(type) {
+				case *ssa.Phi:
+					for _, e := range x.Edges {
+						origin(e, d+1)
+					}
+				case *ssa.Field:
+					origin(x.X, d+1)
+				case *ssa.Extract:
+					bad = append(bad, fmt.Sprintf("%s: the version is the result of a call, not an option of the log", p.at(c)))
+				case *ssa.Call:
+					bad = append(bad, fmt.Sprintf("%s: the version is the result of a call, not an option of the log", p.at(c)))
+				case *ssa.Const, *ssa.MakeInterface:
+					bad = append(bad, fmt.Sprintf("%s: the version is a literal, not an option of the log", p.at(c)))
+				case *ssa.UnOp:
+					if x.Op != token.MUL {
+						origin(x.X, d+1)
+						return
+					}
+					addr := x.X
+					for {
+						if fa, ok := addr.(*ssa.FieldAddr); ok {
+							addr = fa.X
+							continue
+						}
+						break
+					}
+					switch a := addr.(type) {
+					case *ssa.Global:
+						bad = append(bad, fmt.Sprintf("%s: the version is the package-level value %s, not an option of the log", p.at(c), a.Name()))
+					case *ssa.Alloc:
+						for _, st := range allocStoresDeep(a) {
+							origin(st.Val, d+1)
+						}
+					}
+				}
+			}
+			origin(c.Call.Args[1], 0)
 		}
 	}
 	switch {
@@ -4514,7 +4581,7 @@ func (p *Prog) migrateBeforeOpen() []Ob {
 				continue
 			}
 			g := c.Common().StaticCallee()
-			if g == mig {
+			if p.callLeadsTo(c, mig) {
 				migs = append(migs, c)
 			}
 			if g != nil && inModule(g) && g.Signature.Results().Len() > 0 {
@@ -4567,7 +4634,7 @@ func (p *Prog) migrationReachableWithRecoverOrCheck() []Ob {
 					continue
 				}
 				for _, ins := range b.Instrs {
-					if c, ok := ins.(*ssa.Call); ok && c.Common().StaticCallee() == mig {
+					if c, ok := ins.(*ssa.Call); ok && p.callLeadsTo(c, mig) {
 						found = true
 					}
 				}
@@ -4676,7 +4743,19 @@ func (p *Prog) staleTargetIndexRemoved() []Ob {
 				var removes []*ssa.Call
 				for _, b2 := range fn.Blocks {
 					for _, i2 := range b2.Instrs {
-						if rc, ok := i2.(*ssa.Call); ok && calleeName(rc.Common()) == "os.Remove" && canon(rc.Call.Args[0]) == dst {
+						rc, ok := i2.(*ssa.Call)
+						if !ok {
+							continue
+						}
+						passes := false
+						for _, a := range rc.Call.Args {
+							if canon(a) == dst {
+								passes = true
+							}
+						}
+						isRm := func(g *ssa.Function) bool { n := fullName(g); return n == "os.Remove" || n == "os.RemoveAll" }
+						// os.Remove itself, or a small helper of the module that is handed the path and removes
+						if g := rc.Common().StaticCallee(); passes && g != nil && g != cp && (isRm(g) || (inModule(g) && p.reaches(g, isRm))) {
 							removes = append(removes, rc)
 						}
 					}
@@ -4849,4 +4928,146 @@ func (p *Prog) batchEndsAtTheEnd() []Ob {
 		obs = append(obs, ob)
 	}
 	return obs
+}
+
+// callLeadsTo: the call's static callee is target, or a function of the module that reaches it
+// (a small helper the caller hands the work to).
+func (p *Prog) callLeadsTo(c *ssa.Call, target *ssa.Function) bool {
+	g := c.Common().StaticCallee()
+	if g == nil || target == nil {
+		return false
+	}
+	if g == target {
+		return true
+	}
+	if !inModule(g) || g.Blocks == nil {
+		return false
+	}
+	return p.reaches(g, func(h *ssa.Function) bool { return h == target })
+}
+
+// allocStoresDeep: the stores into a local, whole or into one of its fields.
+func allocStoresDeep(a *ssa.Alloc) []*ssa.Store {
+	var out []*ssa.Store
+	seen := map[ssa.Value]bool{}
+	var walk func(v ssa.Value)
+	walk = func(v ssa.Value) {
+		if seen[v] {
+			return
+		}
+		seen[v] = true
+		for _, ref := range *v.Referrers() {
+			switch x := ref.(type) {
+			case *ssa.Store:
+				if x.Addr == v {
+					out = append(out, x)
+				}
+			case *ssa.FieldAddr:
+				walk(x)
+			}
+		}
+	}
+	walk(a)
+	return out
+}
+
+// ---------------------------------------------------------------------------
+// R17h NEXT-OFFSET-FROM-THE-HEAD (C02): what Log.NextOffset and Log.Sync answer from the reader list
+// is the next offset of the LAST reader (the head; when it is empty its name is the only record of
+// the next offset), never that of another position of the list.
+func (p *Prog) nextOffsetFromTheHead() []Ob {
+	r := p.R
+	gno := p.methodOf(r.SegReader, "GetNextOffset")
+	var obs []Ob
+	isLastIndex := func(v ssa.Value) bool {
+		bo, ok := stripConv(v).(*ssa.BinOp)
+		if !ok || bo.Op != token.SUB {
+			return false
+		}
+		k, isK := constInt(bo.Y)
+		c, isC := bo.X.(*ssa.Call)
+		return isK && k == 1 && isC && isBuiltinCall(c.Common(), "len")
+	}
+	for _, name := range []string{"NextOffset", "Sync"} {
+		m := r.ImplMethods[name]
+		ob := Ob{Rule: "R17", Inst: "h:next-offset-from-the-head:Log." + name, Props: []string{"C02"}, Pos: "-", Nontrivial: true}
+		if m == nil || m.Blocks == nil || gno == nil {
+			ob.Status, ob.Msg = Undecided, "Log."+name+" or the segment reader's GetNextOffset not found"
+			obs = append(obs, ob)
+			continue
+		}
+		ob.Pos, ob.Func = p.posStr(m.Pos()), funcLabel(m)
+		fns := []*ssa.Function{m}
+		for i := 0; i < len(fns) && i < 6; i++ {
+			for _, b := range fns[i].Blocks {
+				for _, ins := range b.Instrs {
+					if c, ok := ins.(*ssa.Call); ok {
+						if g := c.Common().StaticCallee(); g != nil && recvNamed(g) == r.Impl && g.Blocks != nil && !containsFn(fns, g) {
+							fns = append(fns, g)
+						}
+					}
+				}
+			}
+		}
+		n := 0
+		var bad []string
+		for _, fn := range fns {
+			for _, b := range fn.Blocks {
+				for _, ins := range b.Instrs {
+					c, ok := ins.(*ssa.Call)
+					if !ok || c.Common().StaticCallee() != gno || len(c.Call.Args) == 0 {
+						continue
+					}
+					n++
+					seen := map[ssa.Value]bool{}
+					var leaf func(v ssa.Value, d int)
+					leaf = func(v ssa.Value, d int) {
+						if v == nil || seen[v] || d > 10 {
+							return
+						}
+						seen[v] = true
+						switch x := v.(type) {
+						case *ssa.Phi:
+							for _, e := range x.Edges {
+								leaf(e, d+1)
+							}
+						case *ssa.UnOp:
+							if x.Op != token.MUL {
+								bad = append(bad, p.at(c)+": the reader asked has an unrecognised origin")
+								return
+							}
+							switch a := x.X.(type) {
+							case *ssa.IndexAddr:
+								if f, _ := loadedField(canon(a.X)); f == r.ImplReaders && !isLastIndex(a.Index) {
+									bad = append(bad, fmt.Sprintf("%s: the next offset is read from position %s of the reader list, not from its last reader", p.at(c), a.Index.String()))
+								}
+							case *ssa.Alloc:
+								for _, st := range allocStores(a) {
+									leaf(st.Val, d+1)
+								}
+							}
+						}
+					}
+					leaf(c.Call.Args[0], 0)
+				}
+			}
+		}
+		switch {
+		case len(bad) > 0:
+			ob.Status, ob.Msg, ob.Path = Violated, "the next offset can be answered from a segment that is not the head: after the newest messages were deleted the (empty) head's name is the only record of the next offset, and an older segment's end is an offset that was already assigned", uniqSorted(bad)
+		default:
+			ob.Status, ob.Msg = Discharged, fmt.Sprintf("%d read(s) of a segment reader's next offset, each from the last reader of the list (or the writer's own)", n)
+		}
+		obs = append(obs, ob)
+	}
+	return obs
+}
+
+func containsFn(fs []*ssa.Function, g *ssa.Function) bool {
+	for _, f := range fs {
+		if f == g {
+			return true
+		}
+	}
+	return false
 }
